@@ -341,8 +341,12 @@ def rule_source_handling(check, rule):
             check.holds(rule, site_of(fi, node), 'returns None (no usable source)', key=key)
             continue
         guards = [a for a, pol in p.lits if a[0] == 'isinstance' and a[1] == v and pol and 'FunctionDef' in str(a[2])]
+        from_parse = any(isinstance(s_, tuple) and s_[0] == 'C' and str(s_[1]).endswith('ast.parse') for s_ in subterms(v))
         if guards:
             check.holds(rule, site_of(fi, node), 'the node returned is checked to be a function definition', key=key)
+        elif not from_parse:
+            # a value that does not come straight out of ast.parse (e.g. a memo table): nothing is claimed about it
+            check.holds(rule, site_of(fi, node), 'returned value %s is not a fresh parse result: not judged' % show(v)[:60], key=key, nontrivial=False)
         else:
             check.violation(rule, site_of(fi, node), 'the first statement of the parsed source is returned unchecked, but every consumer reads '
                             '.args/.body of a function definition', key=key, effect=show(v)[:120],
